@@ -1,4 +1,5 @@
 import LyModel.Diff.K13MergeTree
+import LyModel.Props.C13
 /-!
 # C13 — the composition law at TREE level: `apply (merge (diff A B) (diff B C)) A = C`
 
@@ -9,20 +10,26 @@ number of instances and changes; NO hypothesis on the `sort` callbacks — with 
 `lyd_diff_merge_all(diff(A,B), diff(B,C))` succeeds and `lyd_diff_apply_all` of the merged diff takes `A` to `C` (structure,
 values, default flags of all leaves and leaf-list instances) — PROVIDED the two diffs MEET only in the ways `mergeSafe` lists
 (Diff/MergeSafe.lean, decidable, evaluated by the driver on every generated triple): two leaf / leaf-list nodes — every accepted
-cell of the 4 × 4 table, the 15 cell theorems of Props/C13Merge.lean and three more for copies inside created subtrees — or
-two inner nodes in the cells `none` + `none`, `none` + `delete`, `create` + `delete`, `create` + `none`, recursively.
+cell of the 4 × 4 table: the 15 cell theorems of Props/C13Merge.lean and three more for copies inside created subtrees — or two
+inner nodes in any of the five accepted cells, recursively.
 The proof is the induction of `lyd_diff_merge_r` over the second diff (Diff/K13MergeTree.lean) on top of a forward
 specification of `lyd_diff_apply_all` for exact diffs (Diff/K13Fwd.lean: `apply_exact_obs_keyed` below).
 
 What the hypothesis excludes, and what stays outside the law:
 * F18(a) (no `LYD_DIFF_DEFAULTS`), F18(b) (unrepaired `LYD_DIFF_MERGE_DEFAULTS`), the default-flagged second value of the cell
   `none` + `replace`: `merge_apply_nodefaults_fails`, `merge_apply_mergedefaults_fails`, `merge_apply_dfltvalue_fails`
-  (Props/C13.lean) — the first two through the options of the statement, the third through `mergeSafe`;
-* outside the theorem: an inner node deleted as a whole by the first diff and created again by the second one (`delete` +
-  `create`, "delete-then-recreate") — `mergeSafe` is false there although the law holds on the implementation
-  (`merge_apply_outside_mergeSafe`: a kernel-checked instance); user-ordered lists.  Subtrees created / deleted as a whole by
-  one diff and met again by the other one in the three other ways (`create` + `none`, `create` + `delete`, `none` + `delete`)
-  ARE covered: the operations of their descendants are inherited, `lyd_diff_merge_r` makes them explicit first.
+  (Props/C13.lean) — the first two through the options of the statement, the third through `mergeSafe`
+  (`mergeSafe_excludes_dfltvalue`: that triple is outside `mergeSafe`, and the law fails on it);
+* all five cells of the table the C accepts for inner nodes are INSIDE: besides `none` + `none`, an instance created or deleted as
+  a whole subtree by one diff and met again by the other one — created then changed inside, created then deleted, changed inside
+  then deleted, deleted then created again with the same or with OTHER descendants ("delete-then-recreate", the design-phase cell
+  of F18, composes with `LYD_DIFF_DEFAULTS`).  There the operations of the descendants are INHERITED; `lyd_diff_merge_delete` /
+  `lyd_diff_merge_create` make the operations of the target node's children explicit first, the copies inside a created
+  subtree keep inheriting `create` (Diff/K13MergeTree.lean: `merge_matched_inner_nd`, `_cd`, `_cn`, `_dc`);
+* `mergeSafe` also asks that the key copies in front of a target node belong to earlier schema nodes than the children of the source
+  node and, for `delete` + `create`, that the key leaves of the two copies agree in their default flags: true of every diff
+  computed from data libyang builds (keys are never default nodes) — for arbitrary `wfForest` trees it is part of the hypothesis;
+* user-ordered lists are outside (`lyd_diff_is_redundant` documents their merge as lossy).
 -/
 set_option linter.unusedSimpArgs false
 namespace LyModel.Props.C13
@@ -109,11 +116,19 @@ example : ∃ C', mergeApply mcS true {} moB moC [] = .ok C' ∧ dataEqL true C'
   merge_apply_partial_tree (by decide +kernel) {} (fun h => by cases h) {} moB moC [] (by decide +kernel) (by decide +kernel)
     (by decide +kernel) (by decide +kernel) (by decide +kernel) (by decide +kernel) (by decide +kernel)
 
-/-- `mergeSafe` is a limit of the PROOF, not of the code: the first diff deletes `l[3]` as a whole, the second one creates it again
-with other descendants (`delete` + `create` of an inner node): `mergeSafe` is false, the law holds (this cell is not proved). -/
-theorem merge_apply_outside_mergeSafe :
-    mergeSafe mcS (diff mcS true moC []) (diff mcS true [] moB) = false ∧
-      (match mergeApply mcS true {} moC [] moB with | .ok r => dataEqL true r moB | .error _ => false) = true := by
+/-- "delete-then-recreate with different descendants" (the design-phase cell of finding F18): `l[3]` deleted as a whole by the
+first diff and created again with other descendants by the second — inside `mergeSafe`, the law holds -/
+example : mergeSafe mcS (diff mcS true moC []) (diff mcS true [] moB) = true := by decide +kernel
+example : ∃ C', mergeApply mcS true {} moC [] moB = .ok C' ∧ dataEqL true C' moB = true :=
+  merge_apply_partial_tree (by decide +kernel) {} (fun h => by cases h) {} moC [] moB (by decide +kernel) (by decide +kernel)
+    (by decide +kernel) (by decide +kernel) (by decide +kernel) (by decide +kernel) (by decide +kernel)
+
+/-- what `mergeSafe` excludes is NEEDED: the triple of `merge_apply_dfltvalue_fails` (Props/C13.lean: the cell `none` + `replace`
+clears the default flag of the new value) is outside `mergeSafe`, and the law fails on it -/
+theorem mergeSafe_excludes_dfltvalue :
+    mergeSafe cellS (diff cellS true [tm 0 "d"] [tm 0 "d" true]) (diff cellS true [tm 0 "d" true] [tm 0 "e" true]) = false ∧
+      (match mergeApply cellS true {} [tm 0 "d"] [tm 0 "d" true] [tm 0 "e" true] with
+        | .ok r => dataEqL true r [tm 0 "e" true] | .error _ => false) = false := by
   decide +kernel
 
 end LyModel.Props.C13
